@@ -809,6 +809,9 @@ class Interp(object):
         k0 = base.pos
         k = smt.fresh_int('k')
         pre_out = ctx.out
+        if getattr(base, 'table', None) is not None:
+            ctx.oblige('%s: before the first data row is requested at most the header row has been pulled' % label,
+                       k0 <= 1, self.where(node), 'pull')
         self.havoc(node, env, spec)
         ctx.assume(z3.And(k0 <= k, k <= base.n))
         base.pos = k
@@ -828,6 +831,9 @@ class Interp(object):
             except _Break:
                 raise Unsupported('break inside a loop verified by the stateless-body rule at %s' % self.where(node))
             spec.delta(st, x, dout)
+            # C02 (laziness): one iteration pulls exactly its own row -- no read-ahead, no materialisation
+            ctx.oblige('%s: an iteration pulls no source row besides its own (no read-ahead)' % label,
+                       base.pos == k + 1, self.where(node), 'pull')
             raise PathEnd()
         else:
             base.exhausted_seen = True
